@@ -221,12 +221,24 @@ def _has_sym(v, depth=0):
     return False
 
 
+def _has_symstr(v, depth=0):
+    if isinstance(v, Sym):
+        return v.kind == 'str'
+    if depth < 4 and isinstance(v, (list, tuple)):
+        return any(_has_symstr(x, depth + 1) for x in v)
+    return False
+
+
 def binop(op, a, b):
     if not isinstance(a, Sym) and not isinstance(b, Sym):
         # concrete: native python semantics (including exceptions, re-raised for the interpreter)
         from .values import is_model_value
         if is_model_value(a) or is_model_value(b):
             return a._binop(op, b) if is_model_value(a) else b._rbinop(op, a)
+        if op == '%' and isinstance(a, str):
+            from . import sstr
+            if sstr.has_sstr(b) or (_has_sym(b) and not _has_symstr(b)):
+                return sstr.percent_format(a, b)       # structured result (symbolic integers become numerals)
         if op == '%' and isinstance(a, str) and _has_sym(b):
             from .strings import percent_format
             return percent_format(a, b)
